@@ -17,18 +17,37 @@ func New(config ...Config) fiber.Handler {
 			return c.Next()
 		}
 
-		// Decrypt request cookies
+		// Decrypt request cookies: name, value pairs - the first entry of every name that is not excepted,
+		// decrypted, or empty if it is not a value this middleware issued
+		var (
+			decrypted []string
+			repeated  bool
+		)
 		c.Request().Header.VisitAllCookie(func(key, value []byte) {
 			keyString := string(key)
-			if !isDisabled(keyString, cfg.Except) {
-				decryptedValue, err := cfg.Decryptor(string(value), cfg.Key)
-				if err != nil {
-					c.Request().Header.SetCookieBytesKV(key, nil)
-				} else {
-					c.Request().Header.SetCookie(string(key), decryptedValue)
+			if isDisabled(keyString, cfg.Except) {
+				return
+			}
+			for i := 0; i < len(decrypted); i += 2 {
+				if decrypted[i] == keyString {
+					repeated = true
+					return
 				}
 			}
+			decryptedValue, err := cfg.Decryptor(string(value), cfg.Key)
+			if err != nil {
+				decryptedValue = ""
+			}
+			decrypted = append(decrypted, keyString, decryptedValue)
 		})
+		for i := 0; i < len(decrypted); i += 2 {
+			if repeated {
+				// The setter reaches only the first entry of a name. Further entries would stay as the client
+				// sent them - raw text for everything that reads all cookies (the binder, VisitAllCookie).
+				c.Request().Header.DelCookie(decrypted[i])
+			}
+			c.Request().Header.SetCookie(decrypted[i], decrypted[i+1])
+		}
 
 		// Encrypt response cookies when the stack returns - also when it unwinds because a handler panicked:
 		// the reply a recover middleware in front of this one then sends carries the cookies set so far
